@@ -9,6 +9,7 @@ import (
 	"fmt"
 	"io"
 	"net/http"
+	"net/url"
 	"os"
 	"runtime"
 	"sort"
@@ -292,7 +293,9 @@ func (c *Client) HTTP(q HTTPReq) (r Res, w *RespWriter) {
 		if body == nil {
 			body = http.NoBody
 		}
-		req, err := http.NewRequestWithContext(c.Ctx, q.Method, "http://cache"+q.Path, body)
+		// like a real client: the path is percent-encoded on the wire
+		target := (&url.URL{Scheme: "http", Host: "cache", Path: q.Path}).String()
+		req, err := http.NewRequestWithContext(c.Ctx, q.Method, target, body)
 		if err != nil {
 			// what net/http would answer before the handler runs
 			r.Code = "InvalidArgument"
